@@ -44,7 +44,7 @@ type World struct {
 	AlgPrefix  string
 	// DefaultAlgs: the provider's verifiers run with the library's default algorithm list
 	DefaultAlgs bool
-	KeyN       int
+	KeyN        int
 
 	Ledger *Ledger
 	Step   int
